@@ -27,9 +27,12 @@ type KnownFinding struct {
 	Obligation string
 	Text       string
 	Commit     string
+	Witness    string // optional: the finding is this failing input only (witness="<go string literal>")
 }
 
 var kfRe = regexp.MustCompile(`^(finding|fixed):\s+property=(\S+)\s+(?:obligation=(\S+)\s+)?(.*)$`)
+
+var kfWitnessRe = regexp.MustCompile(`witness=("(?:[^"\\]|\\.)*")`)
 
 func loadKnownFindings() []KnownFinding {
 	f, err := os.Open(filepath.Join(verifDir, "KNOWN_FINDINGS"))
@@ -49,7 +52,13 @@ func loadKnownFindings() []KnownFinding {
 		if m == nil {
 			continue
 		}
-		out = append(out, KnownFinding{Kind: m[1], Property: m[2], Obligation: m[3], Text: m[4]})
+		kf := KnownFinding{Kind: m[1], Property: m[2], Obligation: m[3], Text: m[4]}
+		if wm := kfWitnessRe.FindStringSubmatch(kf.Text); wm != nil {
+			if w, err := strconv.Unquote(wm[1]); err == nil {
+				kf.Witness = w
+			}
+		}
+		out = append(out, kf)
 	}
 	return out
 }
